@@ -928,8 +928,6 @@ def abstract(h, side):
     awaiting_reply = None    # ref flag of a handler that has finished and whose response has not been seen yet
     close_req_seq = None     # seq of the HANDLE_CLOSE request received
     skip_poll_fail = 0
-    delivering = False       # the last transport call of this side completed the receipt of a RESPONSE: what follows, until
-                             # its next transport call, happens inside `_deliver_response` (decode, result callbacks)
     synth = [800000]
     written = {}
     for e in ev:
